@@ -87,7 +87,7 @@ def _safe_run(sub, case, seconds):
         out.fail('memory', 'the case exhausted the %d GiB memory limit of the checking process' % (core.MEM_LIMIT >> 30))
         return out, None
     except HarnessError:
-        return None, traceback.format_exc(limit=6)
+        return None, traceback.format_exc(limit=-8)
     except BaseException as e:   # noqa
         if isinstance(e, (KeyboardInterrupt, SystemExit)):
             raise
@@ -96,9 +96,9 @@ def _safe_run(sub, case, seconds):
             out = core.Outcome()
             out.fail('crash:%s@%s' % (type(e).__name__, where),
                      'unexpected %s escaped from boltons: %s\n%s' % (
-                         type(e).__name__, e, traceback.format_exc(limit=6)))
+                         type(e).__name__, e, traceback.format_exc(limit=-8)))
             return out, None
-        return None, traceback.format_exc(limit=8)
+        return None, traceback.format_exc(limit=-8)
 
 
 def _shard(task):
